@@ -123,3 +123,36 @@ def empty_synth_refuses(H, _):
     exc, _r = H.raises(s.write_to, f)
     H.check("raises_empty_synth_error", isinstance(exc, EmptySynthError))
     H.check("nothing_written", len(f.getvalue()) == 0)
+
+
+@contract(
+    "fmx_custom_waveform_roundtrip", ["C02"], kind="bounded",
+    targets=["rv.modules.fmx:Fmx.specialized_iff_chunks", "rv.modules.fmx:Fmx.load_chunk", "rv.chunks.array:ArrayChunk.bytes", "rv.chunks.array:ArrayChunk._set_bytes"],
+    bound="float32 arrays are outside the engine's struct model ('f' with symbolic values): 200 seeded random float32 vectors + boundary vectors (0, -0.0, +-1, denormal, +-max float32), native clone() and project round trip, compared bit-exactly",
+)
+def fmx_custom_waveform_roundtrip(H, _):
+    """Fmx custom waveform: 256 float32 values survive clone() and a project round trip bit-exactly."""
+    import random
+    import struct
+
+    from rv.modules.fmx import Fmx
+
+    rng = H.rng or random.Random(0)
+
+    def f32(x):
+        return struct.unpack("<f", struct.pack("<f", x))[0]
+
+    specials = [0.0, -0.0, 1.0, -1.0, 1e-45, -1e-45, 3.4028234663852886e38, -3.4028234663852886e38, 0.5, 1 / 3]
+    vectors = [[f32(specials[(i + k) % len(specials)]) for i in range(256)] for k in range(len(specials))]
+    for _k in range(200):
+        vectors.append([f32(rng.uniform(-1, 1) * 10 ** rng.randint(-6, 6)) for _i in range(256)])
+    for vec in vectors:
+        m = Fmx()
+        m.custom_waveform.values = list(vec)
+        want = struct.pack("<256f", *vec)
+        c = m.clone()
+        H.check("clone_bit_exact", struct.pack("<256f", *c.custom_waveform.values) == want)
+        p = Project()
+        p.attach_module(m)
+        q = p.clone()
+        H.check("project_roundtrip_bit_exact", struct.pack("<256f", *q.modules[1].custom_waveform.values) == want)
